@@ -81,9 +81,19 @@ MUTANTS = [
      "  *tz = time_zone(impl);\n  return impl != utc_impl;\n}",
      "  *tz = time_zone(impl);\n  return impl != utc_impl || name.size() == 6;\n}",
      "load reports success for some failing names"),
+    ("c19-android-bundle-order", "C19", "src/time_zone_info.cc",
+     '"/apex/com.android.tzdata/etc/tz/tzdata",\n                             "/data/misc/zoneinfo/current/tzdata",',
+     '"/data/misc/zoneinfo/current/tzdata",\n                             "/apex/com.android.tzdata/etc/tz/tzdata",',
+     "Android bundles consulted in a different order (platform fall-back worlds)"),
+    ("c19-android-ragged-index", "C19", "src/time_zone_info.cc",
+     "    if (zonecnt * sizeof(ebuf) != index_size) continue;\n", "",
+     "a bundle whose index is not a whole number of entries is used anyway"),
+    ("c19-android-length-ignored", "C19", "src/time_zone_info.cc",
+     "std::move(fp), static_cast<std::size_t>(length), vers));", "std::move(fp), static_cast<std::size_t>(-1), vers));",
+     "the entry length of a bundle no longer bounds the reads"),
     ("c20-revert-load-lock", "C20", "src/time_zone_impl.cc",
-     "  std::lock_guard<std::mutex> load_lock(TimeZoneLoadMutex());",
-     "",
+     "  if (!fixed_offset) {\n    load_lock.lock();",
+     "  if (!fixed_offset && name.empty()) {\n    load_lock.lock();",
      "loads no longer serialised (the repaired defect comes back)"),
     ("c20-retry-factory-on-null", "C20", "src/time_zone_info.cc",
      "  return zip != nullptr && Load(zip.get());\n}",
